@@ -247,6 +247,9 @@ def write_xml(content, dial):
     if default_ns is not None:
         pick.features.add("xml:default_ns")
     prefixes = {ns: "n%d" % i for i, ns in enumerate(nss)}
+    # element names that live in the XML Schema namespace itself need a declaration of their own: the conventional
+    # xmlns:xsd of PROV-XML omits the '#'
+    prefixes[XSD] = "xsh"
     decl_mode = pick(3)      # 0: all on root, 1: on each record element, 2: on bundleContent / root mix
     if decl_mode:
         pick.features.add("xml:local_ns_declarations")
@@ -282,6 +285,28 @@ def write_xml(content, dial):
         return "%s:%s" % (prefixes[ns], local)
 
     def value_el(a, cv, used):
+        """an attribute element; sometimes the element declares the prefix of its own name on itself - under a prefix
+        nothing else uses, or re-binding (shadowing) a prefix the root declares for another namespace"""
+        txt = _value_el(a, cv, used)
+        ns, local = split_uri(a)
+        t = txt[1:].split(">")[0].split(" ")[0].rstrip("/")
+        if ns in (PROV, XSD) or ":" not in t or cv[0] in ("qn", "lit") or pick(5) != 1:
+            return txt
+        others = [p for n, p in sorted(prefixes.items()) if n != ns and n != XSD]
+        if others and pick(2):
+            newp = others[0]
+            pick.features.add("xml:prefix_rebound_on_attribute_element")
+        else:
+            newp = "loc"
+            pick.features.add("xml:prefix_declared_on_attribute_element")
+        nt = "%s:%s" % (newp, local)
+        head = "<%s xmlns:%s=%s" % (nt, newp, quoteattr(ns))
+        txt = head + txt[1 + len(t):]
+        if txt.endswith("</%s>" % t):
+            txt = txt[:-len("</%s>" % t)] + "</%s>" % nt
+        return txt
+
+    def _value_el(a, cv, used):
         t = tag(a, used)
         k = cv[0]
         if k == "str":
